@@ -2,11 +2,13 @@ package main
 
 import (
 	"context"
+	"errors"
 	"fmt"
 	"strings"
 	"sync"
 	"time"
 
+	header "github.com/celestiaorg/go-header"
 	"github.com/celestiaorg/go-header/p2p"
 	p2p_pb "github.com/celestiaorg/go-header/p2p/pb"
 	"github.com/celestiaorg/go-header/store"
@@ -75,6 +77,9 @@ func runC10(tier string, r *rng) {
 			c10Stall(how, sent, 250*time.Millisecond)
 		}
 	}
+	// a store whose reads stall (a hung disk) but honour their context: every kind of request is bounded by the server's
+	// request timeout when it comes in through the real stream handler
+	c10Stalled()
 	for _, m := range [][5]uint64{{30, 10, 100, 30, 3}, {30, 10, 100, 28, 5}, {30, 10, 1, 30, 2}, {30, 1, 100, 31, 4}, {30, 10, 40, 5, 64}, {30, 10, 100, 25, 64}} {
 		c10Moving(int(m[0]), int(m[1]), int(m[2]), m[3], m[4])
 	}
@@ -339,4 +344,70 @@ func c10Stall(how string, sent []byte, d time.Duration) {
 		bucket = "early"
 	}
 	emit("C10 kind=stall how=%s sent=%d deadline=%d => end=%s bucket=%s", how, len(sent), d.Milliseconds(), end, bucket)
+}
+
+// stalledStore: every read blocks until its context ends.
+type stalledStore struct {
+	header.Store[*vhdr.Header]
+}
+
+func stall[T any](ctx context.Context) (T, error) {
+	var zero T
+	select {
+	case <-ctx.Done():
+		return zero, ctx.Err()
+	case <-time.After(6 * time.Second):
+		return zero, errors.New("stalled store: gave up")
+	}
+}
+
+func (s stalledStore) Get(ctx context.Context, _ header.Hash) (*vhdr.Header, error) {
+	return stall[*vhdr.Header](ctx)
+}
+
+func (s stalledStore) GetByHeight(ctx context.Context, _ uint64) (*vhdr.Header, error) {
+	return stall[*vhdr.Header](ctx)
+}
+
+func (s stalledStore) GetRange(ctx context.Context, _, _ uint64) ([]*vhdr.Header, error) {
+	return stall[[]*vhdr.Header](ctx)
+}
+
+func (s stalledStore) GetRangeByHeight(ctx context.Context, _ *vhdr.Header, _ uint64) ([]*vhdr.Header, error) {
+	return stall[[]*vhdr.Header](ctx)
+}
+
+func c10Stalled() {
+	ctx := context.Background()
+	mn, hosts, err := peers.NewNet(2)
+	if err != nil {
+		panic(err)
+	}
+	defer mn.Close()
+	st, chain := prunedStore(30, 11)
+	defer st.Stop(ctx) //nolint:errcheck
+	srv, err := p2p.NewExchangeServer[*vhdr.Header](hosts[1], stalledStore{st},
+		p2p.WithNetworkID[p2p.ServerParameters](peers.NetworkID), p2p.WithRequestTimeout[p2p.ServerParameters](300*time.Millisecond))
+	if err != nil {
+		panic(err)
+	}
+	if err := func() error { sc, end := startCtx(); defer end(); return srv.Start(sc) }(); err != nil {
+		panic(err)
+	}
+	defer srv.Stop(ctx) //nolint:errcheck
+	reqs := map[string]*p2p_pb.HeaderRequest{
+		"range":       {Data: &p2p_pb.HeaderRequest_Origin{Origin: 15}, Amount: 5},
+		"hash":        {Data: &p2p_pb.HeaderRequest_Hash{Hash: chain[19].Hash()}, Amount: 1},
+		"hashUnknown": {Data: &p2p_pb.HeaderRequest_Hash{Hash: []byte("nope-nope-nope-nope")}, Amount: 1},
+	}
+	for _, k := range []string{"range", "hash", "hashUnknown"} {
+		t0 := time.Now()
+		_, end := peers.RawRequest(ctx, hosts[0], hosts[1].ID(), peers.Frame(reqs[k]), 3*time.Second)
+		took := time.Since(t0)
+		bucket := "ok"
+		if took > 1500*time.Millisecond {
+			bucket = "late"
+		}
+		emit("C10 kind=stall how=stalledstore-%s sent=0 deadline=300 => end=%s bucket=%s", k, end, bucket)
+	}
 }
